@@ -239,7 +239,35 @@ func genCellValue(r *rng, depth int) jsonline.Value {
 		return []func(interface{}) jsonline.Value{jsonline.NewValueString, jsonline.NewValueNumeric, jsonline.NewValueBoolean, jsonline.NewValueBinary,
 			jsonline.NewValueDate, jsonline.NewValueDateTime, jsonline.NewValueTimestamp, jsonline.NewValueHidden, jsonline.NewValueAuto}[r.intn(9)](v)
 	default:
-		return jsonline.NewValue(genScalar(r), allFormats[r.intn(len(allFormats))], rawTypeSamples[r.intn(len(rawTypeSamples))])
+		f := allFormats[r.intn(len(allFormats))]
+		if r.intn(12) == 0 {
+			f = []jsonline.Format{jsonline.Format(-1), jsonline.Format(9), jsonline.Format(100), jsonline.Format(-128)}[r.intn(4)] // not a format: every use reports ErrUnsupportedFormat
+		}
+		return jsonline.NewValue(genScalar(r), f, rawTypeSamples[r.intn(len(rawTypeSamples))])
+	}
+}
+
+// MapTo over the boundary values of every scalar type under each key a struct target looks up: no call panics (C17)
+func (c *rowopsCtx) mapToSweep() {
+	vals := []interface{}{uint64(math.MaxUint64), uint64(1 << 63), uint(1 << 63), uint64(1<<63 - 1), int64(math.MinInt64), int64(-1), int8(-128), int(-1), uint8(255), uint16(65535),
+		uint32(math.MaxUint32), int32(math.MinInt32), math.NaN(), math.Inf(1), math.Inf(-1), -0.0, 1e300, float32(3.4e38), float32(math.Inf(1)), json.Number("1e400"), json.Number("-1"),
+		json.Number("18446744073709551615"), json.Number("x"), json.Number(""), "", "12", []byte(nil), []byte{}, []byte{1, 2}, true, nil, time.Time{}, []interface{}{1}, map[string]interface{}{"x": 1}}
+	for _, key := range []string{"a", "ab", "b", "c"} {
+		for vi, v := range vals {
+			for ti := 0; ti < 5; ti++ {
+				row := jsonline.NewRow()
+				row.Set(key, v)
+				if vi%2 == 0 {
+					_ = row.UnmarshalJSON([]byte(`{"c":1e400,"b":-1,"a":18446744073709551615,"ab":1.5}`)) // json.Number values under the other keys
+					row.Set(key, v)
+				}
+				t := newMapTarget(ti)
+				c.rep.OracleChecks["C17"]++
+				if p, msg := guard(func() { row.MapTo(t) }); p {
+					c.violate("C17", "panic in reader: "+msg, map[string]interface{}{"stream": "rowops", "history": fmt.Sprintf("Set(%q, %s)", key, describe(v)), "call": fmt.Sprintf("MapTo(%T)", t)})
+				}
+			}
+		}
 	}
 }
 
@@ -1217,6 +1245,34 @@ func (c *rowopsCtx) pathOracle() {
 			}
 		}
 	}
+	// importing at a path that key-by-key navigation does not find (absent key, a scalar or an ARRAY on the way) is
+	// refused and changes nothing, on the parsed and on the built row
+	for which, row := range []jsonline.Row{parsed, built} {
+		if row == nil {
+			continue
+		}
+		before := canonRaw(row)
+		for _, mp := range paths {
+			if _, ok := doc.navigate(mp); ok {
+				continue
+			}
+			mps := strings.Join(mp, ".")
+			c.rep.OracleChecks["C18"]++
+			var err error
+			if pn, msg := guard(func() { err = row.ImportAtPath(mps, 1) }); pn {
+				c.violate("C17", "panic: "+msg, map[string]interface{}{"stream": "rowops", "doc": txt, "call": "ImportAtPath " + mps})
+				break
+			}
+			if err == nil {
+				c.violate("C18", fmt.Sprintf("path: ImportAtPath on a path that navigation does not find succeeded (%s row)", []string{"parsed", "built"}[which]), map[string]interface{}{"stream": "rowops", "doc": txt, "path": mps})
+				break
+			}
+		}
+		if after := canonRaw(row); after != before {
+			c.violate("C18", fmt.Sprintf("path: refused imports changed the document: %s -> %s", before, after), map[string]interface{}{"stream": "rowops", "doc": txt})
+			return
+		}
+	}
 	// importing at a path changes exactly the addressed value
 	p := paths[r.intn(len(paths))]
 	ps := strings.Join(p, ".")
@@ -1427,6 +1483,7 @@ func rowopsStream(seed uint64, tier string, outDir string, props map[string]bool
 	}
 	if props["C17"] {
 		c.resourceOracle(tier)
+		c.mapToSweep()
 	}
 	return rep
 }
